@@ -226,7 +226,7 @@ Definition math_max (x y : num) : num := if num_lt x y then y else x.
 Definition math_min (x y : num) : num := if num_lt y x then y else x.
 
 (* math.modf on a float: (i, f) = math.Modf(x), ±Inf -> (x, 0).  Go's Modf(NaN) = (NaN, NaN);
-   frac has the sign of x. *)
+   a zero fraction is +0.0. *)
 Definition math_modf (x : num) : num * f64 :=
   match x with
   | NInt n => (NInt n, fzero false)
@@ -236,7 +236,8 @@ Definition math_modf (x : num) : num * f64 :=
       | B754_nan => (NFlt f, fnan)
       | _ => let i := ftrunc f in
              let fr := fsub f i in
-             (* Go: frac = f - int keeps the sign of f when the difference is zero *)
-             (NFlt i, if fis_zero fr then fzero (fsign f) else fr)
+             (* math.Modf gives a zero fraction the sign of f; mathlib.modf (after the round-6 repair)
+                replaces a zero fraction by +0.0, as the reference implementation does *)
+             (NFlt i, if fis_zero fr then fzero false else fr)
       end
   end.
